@@ -3,7 +3,7 @@ EXTENDS WbIcContract, Json, IOUtils
 G == JsonDeserialize(IOEnv.GRAPH)
 NDuts == Len(G.duts)
 VARIABLES d, s
-vars == <<d, s, open, incyc, served, waitc, owner, age, tofired, seen, obs>>
+vars == <<d, s, open, incyc, served, waitc, owner, age, ageu, tofired, seen, obs>>
 C == G.duts[d].cfg
 Init == /\ d \in 1..NDuts /\ s = 0 /\ CInit
 Step(iv) ==
